@@ -161,6 +161,15 @@ type liveStats struct {
 func liveMode(runs, ticks int, maxRounds uint64, outDir string) {
 	sim.RegisterKeys(16)
 	st := &liveStats{Rounds: map[string]int{}, Locked: map[string]int{}, Strategy: map[string]int{}}
+	// scripted: a Byzantine LEADER's round leaves every replica locked under a build height the leader named only in its
+	// PRECOMMIT message; afterwards the correct replicas, alone and with nothing lost, must commit (the control run without the
+	// rewritten field must commit too)
+	for _, attack := range []bool{true, false} {
+		if n, story, err := scenarioPoisonedBuildHeight(attack, false); err == nil && len(n.Commits) == 0 {
+			sim.Direct(outDir, map[string]any{"finding": "no-commit-after-a-byzantine-leader-named-another-build-height", "kind": "correct replicas holding more than two thirds of the power, alone and with nothing lost, do not commit in eight rounds after a round led by a Byzantine validator",
+				"attack": attack, "story": story})
+		}
+	}
 	r := sim.NewRng(sim.SeedFromEnv())
 	cw := &sim.CaseWriter{OutDir: outDir, Name: "c15", Imports: "From V Require Import U64 Extracted Bft BftNet BftLive.", CaseType: "live_case", MFun: "live_mismatches", VFun: "live_violations", PerShard: 200}
 	// synchronous rounds from injected aligned states (the setting of the theorem), compared with model/BftLive.v
